@@ -130,6 +130,11 @@ def canon(ob):
             "delivered": [d if isinstance(d, str) else d.decode("latin-1") for d in ob["delivered"]]}
 
 
+def masked(trace):
+    """a trace with the header timestamps that defaulted to the wall clock masked (two runs read the clock at different times)"""
+    return [(k, dict(v, delivered=[oracles.mask_now_json(d) for d in v["delivered"]])) if k == "obs" else (k, v) for k, v in trace]
+
+
 def run_alone(fmt, events, peer_i=0):
     q = impl.ListQueue()
     cn = impl.Conn(fmt=fmt, queue=q, timeout=TIMEOUT, peer=("10.0.0.%d" % (peer_i + 1), 4000 + peer_i))
@@ -155,10 +160,11 @@ def check_case(stream, fmt, k, events, ctx, meta):
     for c in range(k):
         projc = [e for cc, e in events if cc == c]
         alone, aq = run_alone(fmt, projc, c)
-        if alone != traces[c]:
+        if masked(alone) != masked(traces[c]):
             # first difference
             i = 0
-            while i < min(len(alone), len(traces[c])) and alone[i] == traces[c][i]:
+            ma, mt = masked(alone), masked(traces[c])
+            while i < min(len(alone), len(traces[c])) and ma[i] == mt[i]:
                 i += 1
             stream.fail(dict(case, connection=c),
                         "connection %d behaves differently when interleaved: entry %d is %r, alone it is %r"
@@ -166,8 +172,8 @@ def check_case(stream, fmt, k, events, ctx, meta):
                         signature="%s/projection-differs" % stream.name)
             return
         mine = [it for cc, it in qlog if cc == c]
-        if [x if isinstance(x, str) else x.decode("latin-1") for x in mine] != \
-                [x if isinstance(x, str) else x.decode("latin-1") for x in aq]:
+        if [oracles.mask_now_json(x if isinstance(x, str) else x.decode("latin-1")) for x in mine] != \
+                [oracles.mask_now_json(x if isinstance(x, str) else x.decode("latin-1")) for x in aq]:
             stream.fail(dict(case, connection=c), "queue items of connection %d differ from its deliveries when served alone" % c,
                         signature="%s/queue-differs" % stream.name)
             return
